@@ -11,6 +11,11 @@ Open Scope N_scope.
 Definition cluster_of (n : node) : list nid :=
   match self n with Some i => sadd i (others n) | None => others n end.
 
+(* the member set as of the snapshot's position: the membership requests of the entries behind
+   lastApplied are undone, latest first (syncobj.py __clusterBeforeChange) *)
+Definition cluster_at_applied (n : node) : list nid :=
+  cluster_before n (rev (get_entries (log n) (Some (applied n + 1)) None None)) (cluster_of n).
+
 (* The serializing branch of try_compact is the only one that leaves pid = 1.  The stored
    snapshot is built from the node state at the start of the call. *)
 Lemma capture_point : forall e s,
@@ -18,7 +23,7 @@ Lemma capture_point : forall e s,
   pid (sr (nd s)) = 0 /\
   exists sn pre post,
     s_hist sn = hist (nd s) /\ s_ver sn = enabled_ver (nd s) /\
-    s_cluster sn = cluster_of (nd s) /\ s_len sn = snaplen e /\
+    s_cluster sn = cluster_at_applied (nd s) /\ s_len sn = snaplen e /\
     log (nd s) = pre ++ s_e0 sn :: s_e1 sn :: post /\
     N.of_nat (length pre) = applied (nd s) - 1 - first_idx (log (nd s)) /\
     first_idx (log (nd s)) <= applied (nd s) - 1 /\
@@ -41,7 +46,7 @@ Proof.
   { unfold upd; cbn; intros H; rewrite H in E0; discriminate. }
   intros _. split; auto.
   apply get_entries_two_split in Eg. destruct Eg as (_ & pre & post & Hl & Hlen & Hf).
-  exists (mkSnap (hist (nd s)) (enabled_ver (nd s)) e1 e0 (cluster_of (nd s)) (snaplen e)), pre, post.
+  exists (mkSnap (hist (nd s)) (enabled_ver (nd s)) e1 e0 (cluster_at_applied (nd s)) (snaplen e)), pre, post.
   cbn. repeat split; auto.
 Qed.
 
@@ -51,7 +56,7 @@ Lemma capture_point_indices : forall e s,
     cur_id (sr (nd (try_compact e s))) = applied (nd s) - 1 /\
     eidx (s_e0 sn) = applied (nd s) - 1 /\ eidx (s_e1 sn) = applied (nd s) /\
     In (s_e0 sn) (log (nd s)) /\ In (s_e1 sn) (log (nd s)) /\
-    s_hist sn = hist (nd s) /\ s_ver sn = enabled_ver (nd s) /\ s_cluster sn = cluster_of (nd s).
+    s_hist sn = hist (nd s) /\ s_ver sn = enabled_ver (nd s) /\ s_cluster sn = cluster_at_applied (nd s).
 Proof.
   intros e s H Hwf Ha.
   destruct (capture_point e s H) as (_ & sn & pre & post & Hh & Hv & Hc & _ & Hl & Hlen & Hf & Hn & _).
@@ -156,16 +161,30 @@ Proof.
   exact H2.
 Qed.
 
-Lemma load_dump_fail : forall e clear s, load_dump_ok s = false -> load_dump e clear s = s.
+(* a dump that is absent, corrupt or needs a newer code version is not loaded ... *)
+Lemma load_dump_fail : forall e clear s,
+  load_dump_ok s = false -> snap_behind s = false -> load_dump e clear s = s.
 Proof.
-  intros e clear s H. unfold load_dump, load_dump_ok in *.
+  intros e clear s H Hb. unfold load_dump, load_dump_ok, snap_behind in *.
   destruct (stored (sr (nd s))) as [[sn|]|]; auto.
+  rewrite Hb in *. rewrite andb_false_r. cbn [negb andb] in H.
   destruct (self_ver (nd s) <? s_ver sn) eqn:E; auto. lia.
+Qed.
+
+(* ... and a received snapshot that is not ahead of the node's position is not installed: the
+   node only asks for a fresh snapshot of its own *)
+Lemma load_dump_behind : forall e s,
+  snap_behind s = true ->
+  load_dump e true s = upd (fun n => n <| force_compact := true |> <| last_ser_entry := None |>) s.
+Proof.
+  intros e s Hb. unfold load_dump, snap_behind in *.
+  destruct (stored (sr (nd s))) as [[sn|]|]; try discriminate. rewrite Hb. reflexivity.
 Qed.
 
 Lemma load_dump_ok_cases : forall s, load_dump_ok s = false <->
   (stored (sr (nd s)) = None \/ (exists l, stored (sr (nd s)) = Some (Corrupt l)) \/
-   exists sn, stored (sr (nd s)) = Some (Good sn) /\ self_ver (nd s) < s_ver sn).
+   exists sn, stored (sr (nd s)) = Some (Good sn) /\
+              (self_ver (nd s) < s_ver sn \/ eidx (s_e1 sn) <= applied (nd s))).
 Proof.
   intros s. unfold load_dump_ok. destruct (stored (sr (nd s))) as [[sn|l]|].
   - split.
@@ -177,6 +196,7 @@ Qed.
 
 Lemma load_restores : forall e s sn,
   stored (sr (nd s)) = Some (Good sn) -> s_ver sn <= self_ver (nd s) ->
+  applied (nd s) < eidx (s_e1 sn) ->
   let s' := load_dump e true s in
   load_dump_ok s = true /\
   hist (nd s') = s_hist sn /\ enabled_ver (nd s') = s_ver sn /\ applied (nd s') = eidx (s_e1 sn) /\
@@ -187,7 +207,8 @@ Lemma load_restores : forall e s sn,
   others (nd s') = (if dyn (cf e)
                     then filter (fun x => negb (self_is x (nd s))) (s_cluster sn) else others (nd s)).
 Proof.
-  intros e s sn Hst Hv s'. subst s'. unfold load_dump, load_dump_ok. rewrite Hst.
+  intros e s sn Hst Hv Hah s'. subst s'. unfold load_dump, load_dump_ok. rewrite Hst.
+  destruct (eidx (s_e1 sn) <=? applied (nd s)) eqn:Eb; [lia|]. cbn [andb negb].
   destruct (self_ver (nd s) <? s_ver sn) eqn:E; [lia|].
   split; [lia|]. cbn [orb].
   match goal with |- context [if dyn (cf e) then update_cluster _ ?s0 else _] => set (S0 := s0) end.
@@ -261,6 +282,7 @@ Lemma on_append_entries_snap_unfold : forall e from t c p s,
        if done && load_dump_ok s2 then
          let s3 := send_next_idx from None false true (load_dump e true s2) in
          ae_commit c (Some (last_idx (log (nd s3)))) s3
+       else if done then ae_commit c None (load_dump e true s2)
        else ae_commit c None s2.
 Proof. reflexivity. Qed.
 
@@ -360,12 +382,34 @@ Lemma send_outs : forall d m s,
   outs (send d m s) = if smem d (tconn (nd s)) then outs s ++ [Send d m] else outs s.
 Proof. intros. unfold send, emit. destruct (smem _ _); reflexivity. Qed.
 
-(* C09_load_restores, failure part: a dump that cannot be loaded (absent, corrupt, newer code
-   version) or an incomplete transfer leaves commit, log and application state alone and
-   sends nothing *)
+Lemma load_dump_not_ok_frame : forall e s,
+  load_dump_ok s = false ->
+  let s' := load_dump e true s in
+  commit (nd s') = commit (nd s) /\ log (nd s') = log (nd s) /\ hist (nd s') = hist (nd s) /\
+  applied (nd s') = applied (nd s) /\ enabled_ver (nd s') = enabled_ver (nd s) /\
+  outs s' = outs s /\ exc s' = exc s.
+Proof.
+  intros e s H. cbv zeta. destruct (snap_behind s) eqn:Eb.
+  - rewrite (load_dump_behind e s Eb). unfold upd. cbn. repeat split; auto.
+  - rewrite (load_dump_fail e true s H Eb). repeat split; auto.
+Qed.
+
+Lemma set_transmission_ok_ext : forall p s1 s,
+  sr (nd s1) = sr (nd s) -> applied (nd s1) = applied (nd s) -> self_ver (nd s1) = self_ver (nd s) ->
+  load_dump_ok (fst (set_transmission p s1)) = load_dump_ok (fst (set_transmission p s)).
+Proof.
+  intros p s1 s H1 H2 H3. unfold set_transmission, load_dump_ok. destruct p as [|b off len first last]; cbn.
+  - now rewrite H1, H2, H3.
+  - rewrite H1. destruct (if first then Some [] else incoming (sr (nd s))); cbn; [|now rewrite H1, H2, H3].
+    destruct last; unfold upd; cbn; now rewrite ?H1, H2, H3.
+Qed.
+
+(* C09_load_restores, failure part: a transfer that is incomplete, or that completes a dump which
+   cannot be loaded (corrupt, newer code version, not ahead of the node's position) leaves commit,
+   log and application state alone and sends nothing *)
 Lemma aesnap_no_install : forall e from t c p s,
   let s' := on_append_entries e from (AESnap t c p) t c s in
-  load_dump_ok s' = false \/ snd (set_transmission p s) = false ->
+  load_dump_ok (fst (set_transmission p s)) = false \/ snd (set_transmission p s) = false ->
   commit (nd s') = commit (nd s) /\ log (nd s') = log (nd s) /\ hist (nd s') = hist (nd s) /\
   applied (nd s') = applied (nd s) /\ enabled_ver (nd s') = enabled_ver (nd s) /\
   no_new_send s s' /\ exc s' = exc s.
@@ -378,28 +422,22 @@ Proof.
   pose proof (set_transmission_frame p s1) as Hf. cbn zeta in Hf.
   pose proof (set_transmission_done p s1) as Hd.
   pose proof (set_transmission_done p s) as Hd0.
-  assert (Hinc : incoming (sr (nd s1)) = incoming (sr (nd s))).
-  { unfold same_app in A. destruct A as (_ & _ & _ & _ & _ & A & _). rewrite A. auto. }
+  unfold same_app in A. destruct A as (A1 & A2 & A3 & A4 & A5 & A6 & A7 & A8 & A9 & A10).
+  assert (Hinc : incoming (sr (nd s1)) = incoming (sr (nd s))) by now rewrite A6.
   rewrite Hinc, <- Hd0 in Hd. clear Hd0 Hinc.
+  pose proof (set_transmission_ok_ext p s1 s A6 A3 A8) as Hok.
   destruct (set_transmission p s1) as [s2 done]. cbn [fst snd] in *.
   destruct Hf as (F1 & F2 & F3 & F4 & F5 & F6 & F7 & F8 & F9 & F10).
-  unfold same_app in A. destruct A as (A1 & A2 & A3 & A4 & A5 & A6 & A7 & A8 & A9 & A10).
   destruct (done && load_dump_ok s2) eqn:Ed.
   - intros H. exfalso. apply andb_true_iff in Ed. destruct Ed as [Ed1 Ed2].
-    destruct H as [H|H]; [|congruence].
-    unfold load_dump_ok in Ed2.
-    destruct (stored (sr (nd s2))) as [[sn|]|] eqn:Est; try discriminate.
-    assert (Hv : s_ver sn <= self_ver (nd s2)) by lia.
-    destruct (load_restores e s2 sn Est Hv) as (_ & _ & _ & _ & _ & _ & _ & L1 & _ & L2 & _).
-    set (s3 := load_dump e true s2) in *.
-    unfold send_next_idx in H.
-    match type of H with context [send from ?m s3] => set (M := m) in H end.
-    destruct (send_frame from M s3) as (S1 & _).
-    unfold load_dump_ok, ae_commit, upd in H. rewrite S1 in H.
-    destruct (commit (nd s3) <? c); cbn in H; rewrite ?S1, L1, L2, Est in H; lia.
-  - intros _. unfold ae_commit, upd. cbn.
-    repeat split; try congruence.
-    intros d m Hin. apply C. rewrite <- F8. exact Hin.
+    destruct H as [H|H]; congruence.
+  - intros H.
+    assert (Hns : no_new_send s s2) by (intros d m Hin; apply C; rewrite <- F8; exact Hin).
+    destruct done.
+    + cbn in Ed. destruct (load_dump_not_ok_frame e s2 Ed) as (L1 & L2 & L3 & L4 & L5 & L6 & L7).
+      unfold ae_commit, upd. cbn. repeat split; try congruence.
+      intros d m Hin. apply Hns. rewrite <- L6. exact Hin.
+    + unfold ae_commit, upd. cbn. repeat split; try congruence. exact Hns.
 Qed.
 
 Lemma update_cluster_term : forall new s, term (nd (update_cluster new s)) = term (nd s).
@@ -422,10 +460,21 @@ Lemma load_dump_tconn_term : forall e s,
 Proof.
   intros e s. unfold load_dump.
   destruct (stored (sr (nd s))) as [[sn|]|]; auto.
+  destruct (true && _); [split; [reflexivity|intros x Hx Hd; exact Hx]|].
   destruct (self_ver (nd s) <? s_ver sn); auto. cbn [orb].
   split.
   - destruct (dyn (cf e)); [rewrite update_cluster_term|]; reflexivity.
   - intros x Hx Hd. rewrite Hd. exact Hx.
+Qed.
+
+Lemma load_dump_not_ok_sr : forall e s,
+  load_dump_ok s = false ->
+  sr (nd (load_dump e true s)) = sr (nd s) /\ applied (nd (load_dump e true s)) = applied (nd s) /\
+  self_ver (nd (load_dump e true s)) = self_ver (nd s).
+Proof.
+  intros e s H. destruct (snap_behind s) eqn:Eb.
+  - rewrite (load_dump_behind e s Eb). unfold upd. cbn. auto.
+  - rewrite (load_dump_fail e true s H Eb). auto.
 Qed.
 
 (* C09_load_restores, success part, as seen by the handler *)
@@ -434,6 +483,7 @@ Lemma aesnap_install : forall e from t c p s sn,
   snd (set_transmission p s) = true ->
   let s' := on_append_entries e from (AESnap t c p) t c s in
   stored (sr (nd s')) = Some (Good sn) -> s_ver sn <= self_ver (nd s) ->
+  applied (nd s) < eidx (s_e1 sn) ->
   hist (nd s') = s_hist sn /\ enabled_ver (nd s') = s_ver sn /\ applied (nd s') = eidx (s_e1 sn) /\
   log (nd s') = [s_e0 sn; s_e1 sn] /\
   commit (nd s') = (if commit (nd s) <? c then N.max (commit (nd s)) (N.min c (eidx (s_e1 sn))) else commit (nd s)) /\
@@ -458,7 +508,8 @@ Proof.
   - unfold load_dump_ok in Eok.
     destruct (stored (sr (nd s2))) as [[sn2|]|] eqn:Est; try discriminate.
     assert (Hv : s_ver sn2 <= self_ver (nd s2)) by lia.
-    destruct (load_restores e s2 sn2 Est Hv) as (_ & L1 & L2 & L3 & L4 & L5 & L6 & L7 & L8 & L9 & _).
+    assert (Hah2 : applied (nd s2) < eidx (s_e1 sn2)) by lia.
+    destruct (load_restores e s2 sn2 Est Hv Hah2) as (_ & L1 & L2 & L3 & L4 & L5 & L6 & L7 & L8 & L9 & _).
     destruct (load_dump_tconn_term e s2) as (T1 & T2).
     set (s3 := load_dump e true s2) in *.
     unfold send_next_idx.
@@ -466,7 +517,7 @@ Proof.
     destruct (send_frame from M s3) as (S1 & S2 & S3).
     pose proof (send_outs from M s3) as So.
     unfold ae_commit, upd. cbn. rewrite S1.
-    intros Hst Hsv.
+    intros Hst Hsv Hah.
     assert (Hsn : sn2 = sn).
     { destruct (commit (nd s3) <? c); cbn in Hst; rewrite ?S1, L7, Est in Hst; congruence. }
     subst sn2.
@@ -478,6 +529,7 @@ Proof.
                     In (Send from (NextIdx t (eidx (s_e1 sn) + 1) false true)) (outs (send from M s3))).
     { intros Hc Hdyn. rewrite So, T2, HM; auto; [|congruence]. apply in_or_app. right. left. reflexivity. }
     destruct (commit (nd s) <? c) eqn:Ec; cbn; rewrite ?S1; repeat split; auto; try congruence.
-  - intros Hst Hsv. exfalso. unfold ae_commit, upd in Hst. cbn in Hst.
+  - intros Hst Hsv Hah. exfalso. unfold ae_commit, upd in Hst. cbn in Hst.
+    destruct (load_dump_not_ok_sr e s2 Eok) as (N1 & _). rewrite N1 in Hst.
     unfold load_dump_ok in Eok. rewrite Hst in Eok. lia.
 Qed.
